@@ -216,6 +216,21 @@ func c02Oracle(in c02In) probe.Outcome {
 			return fail(fmt.Errorf("prefix of %d octets: %w", l, err))
 		}
 	}
+	// (b') truncation with the SK payload length (and the header length) re-framed to the shorter datagram
+	for l := 32; l < len(w); l++ {
+		if !in.AllFlips && l > 80 && l < len(w)-40 && l%5 != 0 {
+			continue
+		}
+		x := append([]byte(nil), w[:l]...)
+		x[30], x[31] = byte((l-28)>>8), byte(l-28)
+		if err := cx.tryAltered(x, "prefix+sk-length", in.Keys, recvI); err != nil {
+			return fail(fmt.Errorf("prefix of %d octets with the SK length re-framed: %w", l, err))
+		}
+		gen.FixHeaderLength(x)
+		if err := cx.tryAltered(x, "prefix+sk-length+header-length", in.Keys, recvI); err != nil {
+			return fail(fmt.Errorf("prefix of %d octets with both lengths re-framed: %w", l, err))
+		}
+	}
 	// (c) extensions
 	for _, ext := range in.Exts {
 		if len(ext) == 0 {
